@@ -7,9 +7,9 @@ from props import c04
 
 def miri(args, timeout=3600):
     env = dict(os.environ, RUSTFLAGS="--cfg fastpasta_verif", MIRIFLAGS="-Zmiri-disable-isolation", CARGO_NET_OFFLINE="true")
-    shutil.copyfile("/repo/Cargo.lock", os.path.join(VERIF, "harness", "Cargo.lock"))
+    hdir = build.harness_dir()
     cmd = ["cargo", "+nightly", "miri", "run", "--offline", "--target-dir", os.path.join(BUILD, "miri"), "--"] + [str(a) for a in args]
-    p = subprocess.run(cmd, cwd=os.path.join(VERIF, "harness"), env=env, stdout=subprocess.PIPE, stderr=subprocess.PIPE, timeout=timeout)
+    p = subprocess.run(cmd, cwd=hdir, env=env, stdout=subprocess.PIPE, stderr=subprocess.PIPE, timeout=timeout)
     out = p.stdout.decode("utf-8", "replace").strip().split("\n")
     err = p.stderr.decode("utf-8", "replace")
     try:
